@@ -1260,6 +1260,15 @@ namespace chaiscript {
           : AST_Node_Impl<T>(std::move(t_ast_node_text), AST_Node_Type::Try, std::move(t_loc), std::move(t_children)) {
       }
 
+      /// Boxes the C++ exception currently being handled for the catch clauses. The script may keep
+      /// the caught object or throw it again, so the boxed value shares ownership of the exception
+      /// itself instead of referring to an object that dies with the C++ handler.
+      template<typename Exception>
+      static Boxed_Value box_caught_exception(const Exception &t_e) {
+        auto keep_alive = std::make_shared<std::exception_ptr>(std::current_exception());
+        return Boxed_Value(std::shared_ptr<const Exception>(std::move(keep_alive), &t_e));
+      }
+
       /// Runs the first catch clause that accepts \p t_except. Must be called from inside the handler
       /// that caught the exception: when no clause accepts it, the exception is rethrown unchanged.
       Boxed_Value handle_exception(const chaiscript::detail::Dispatch_State &t_ss, const Boxed_Value &t_except) const {
@@ -1321,13 +1330,13 @@ namespace chaiscript {
           try {
             retval = this->children[0]->eval(t_ss);
           } catch (const exception::eval_error &e) {
-            retval = handle_exception(t_ss, Boxed_Value(std::ref(e)));
+            retval = handle_exception(t_ss, box_caught_exception(e));
           } catch (const std::runtime_error &e) {
-            retval = handle_exception(t_ss, Boxed_Value(std::ref(e)));
+            retval = handle_exception(t_ss, box_caught_exception(e));
           } catch (const std::out_of_range &e) {
-            retval = handle_exception(t_ss, Boxed_Value(std::ref(e)));
+            retval = handle_exception(t_ss, box_caught_exception(e));
           } catch (const std::exception &e) {
-            retval = handle_exception(t_ss, Boxed_Value(std::ref(e)));
+            retval = handle_exception(t_ss, box_caught_exception(e));
           } catch (Boxed_Value &e) {
             retval = handle_exception(t_ss, e);
           }
